@@ -1,6 +1,5 @@
 import StorageModel.Driver.Common
 import StorageModel.C06.Model
-import StorageModel.C06.NoTrace
 /- model driver for C06: `run spec` reads case lines on stdin and prints one output line per case
    (spec = false: the engine model's output; spec = true: the spec's verdict).
    Line protocol: see /verif/harness/c06.go. -/
@@ -23,17 +22,20 @@ def parseChkA (s : String) : Option ChkA :=
   if s = "*" then none
   else
     let c := s.toList
-    some ⟨c.contains 'n', c.contains 'a', c.contains 'r', c.contains 'o', c.contains 'g'⟩
+    some ⟨c.contains 'n', c.contains 'a', c.contains 'r', c.contains 'o', c.contains 'd', c.contains 'g'⟩
 
-def parseVals (n a r o g : String) : Option ValsA := do
-  pure ⟨← Bytes.ofHex n, ← parseOpt a, ← parseList r, ← parseOpt o, ← parseList g⟩
+def parseVals (n a r o d g : String) : Option ValsA := do
+  pure ⟨← Bytes.ofHex n, ← parseOpt a, ← parseList r, ← parseOpt o, ← parseOpt d, ← parseList g⟩
 
 def parseOp (s : String) : Option Op :=
   match s.splitOn ":" with
-  | ["ca", id, n, a, r, o, g] => do pure (.createA (← Bytes.ofHex id) (← parseVals n a r o g))
-  | ["ua", id, n, a, r, o, g, c] => do pure (.updateA (← Bytes.ofHex id) (← parseVals n a r o g) (parseChkA c))
-  | ["cc", id, n, a, r, o, g, code] => do
-    pure (.createA1 (← Bytes.ofHex id) (← parseVals n a r o g) (← Bytes.ofHex code))
+  | ["ca", id, n, a, r, o, d, g] => do pure (.createA (← Bytes.ofHex id) (← parseVals n a r o d g))
+  | ["ua", id, n, a, r, o, d, g, c] => do pure (.updateA (← Bytes.ofHex id) (← parseVals n a r o d g) (parseChkA c))
+  | ["cc", id, n, a, r, o, d, g, code, pals] => do
+    pure (.createA1 (← Bytes.ofHex id) (← parseVals n a r o d g) (← Bytes.ofHex code) (← parseList pals))
+  | ["ri", a, b] => do pure (.rcInc (← Bytes.ofHex a) (← Bytes.ofHex b))
+  | ["rd", a, b] => do pure (.rcDec (← Bytes.ofHex a) (← Bytes.ofHex b))
+  | ["rs", a, b, n] => do pure (.rcSet (← Bytes.ofHex a) (← Bytes.ofHex b) (← n.toNat?))
   | ["da", id] => do pure (.deleteA (← Bytes.ofHex id))
   | ["dc", id] => do pure (.deleteA (← Bytes.ofHex id))
   | ["cb", id, l] => do pure (.createB (← Bytes.ofHex id) (← parseOpt l))
@@ -76,12 +78,8 @@ def resW (s : State) (ops : List Op) : String :=
   | .ok _ => "ok"
   | .error (i, e) => "err:" ++ errName e ++ "@" ++ toString i
 
-/-- ids deleted by the operations of a transaction, with the store they belong to -/
-def deletedIds : List Op → List (Bool × Id)
-  | [] => []
-  | .deleteA id :: rest => (true, id) :: deletedIds rest
-  | .deleteB id :: rest => (false, id) :: deletedIds rest
-  | _ :: rest => deletedIds rest
+/-- ids of both stores -/
+def liveIds (s : State) : List Id := Map.keys s.a ++ Map.keys s.b
 
 /-- where the id occurs in the dump: path / key / value (in this order of precedence), or clean -/
 def scanW (id : Id) (ls : List Line) : String :=
@@ -98,17 +96,16 @@ def scanW (id : Id) (ls : List Line) : String :=
     | .kv _ _ v => hit v
   if ls.any inPath then "path" else if ls.any inKey then "key" else if ls.any inValue then "value" else "clean"
 
-def deletedW (spec : Bool) (s' : State) (ops : List Op) : String :=
-  let ids := (deletedIds ops).eraseDups.filter fun p =>
-    if p.1 then (s'.a.lookup p.2).isNone else (s'.b.lookup p.2).isNone
+/-- every entity id present before the transaction and absent after it (cascades included) -/
+def deletedW (spec : Bool) (s s' : State) : String :=
+  let now := liveIds s'
+  let ids := (liveIds s).eraseDups.filter fun j => !now.contains j
   if ids.isEmpty then "."
   else
     let ls := Render s'
-    let parts := ids.map fun p =>
-      if spec then hexB p.2 ++ "=ok/clean"
-      else hexB p.2 ++ "=" ++ (if ls.any (fun l => decide (Mentions p.2 l)) then "found" else "ok") ++ "/" ++ scanW p.2 ls ++
-        -- the hypothesis of delete_no_trace is evaluated for every validated delete
-        (if noClashCheck p.2 s' then "" else "!noclash")
+    let parts := ids.map fun j =>
+      if spec then hexB j ++ "=ok/clean"
+      else hexB j ++ "=" ++ (if ls.any (fun l => decide (Mentions j l)) then "found" else "ok") ++ "/" ++ scanW j ls
     ",".intercalate (sortStrings parts)
 
 def runModel (spec : Bool) (vals : List Bytes) (txs : List (List Op)) : String :=
@@ -118,7 +115,7 @@ def runModel (spec : Bool) (vals : List Bytes) (txs : List (List Op)) : String :
     | ops :: rest =>
       let r := txStep s ops
       let s' := r.1
-      let del := if r.2 == .ok then deletedW spec s' ops else "."
+      let del := if r.2 == .ok then deletedW spec s s' else "."
       if spec then
         -- the spec's verdict concerns committed deletes only: no trace of the id anywhere
         go s' "" rest (("-#-#-#" ++ del) :: acc)
